@@ -107,17 +107,27 @@ SizeLineTok(line) == LET semi == FirstIdx(line, SEMI) IN IF semi = 0 THEN line E
 
 PErr(why) == [ok |-> FALSE, why |-> why, body |-> <<>>, used |-> 0, lenient |-> FALSE]
 
+\* the rest of a stream is a zero chunk-size whose line end was cut off ("0", "00", "0" CR): every data byte has
+\* arrived, only the terminator is incomplete
+CutLastChunk(rest) == LET t == Strip(SizeLineTok(rest)) IN Len(t) > 0 /\ Len(t) <= 6 /\ \A i \in 1..Len(t) : t[i] = ZERO
+
 \* Decode the chunked body that starts at position p of s.  Trailer fields are not modelled (the last chunk must
 \* be followed directly by CR LF); bytes after the end of the body are left alone (`used` = bytes consumed).
+\* A stream that ends inside the terminator (after the "0" of the last chunk) carries the complete data: a reader
+\* may reject it as truncated or return the body (`lenient`).  A stream that ends anywhere earlier is an error.
 RECURSIVE ParseFrom(_, _, _, _)
 ParseFrom(s, p, acc, len) ==
   LET e == FindCrLf(s, p) IN
-  IF e = 0 THEN PErr("eof_in_size")
+  IF e = 0 THEN (IF CutLastChunk(SubSeq(s, p, Len(s)))
+                 THEN [ok |-> TRUE, why |-> "", body |-> acc, used |-> Len(s), lenient |-> TRUE]
+                 ELSE PErr("eof_in_size"))
   ELSE LET sz == SizeOf(SizeLineTok(SubSeq(s, p, e - 1)))
            d == e + 2
        IN IF ~sz.ok THEN PErr(sz.why)
           ELSE IF d + sz.val - 1 > Len(s) THEN PErr("eof_in_data")
-          ELSE IF d + sz.val + 1 > Len(s) THEN PErr("eof_in_crlf")
+          ELSE IF d + sz.val + 1 > Len(s)
+               THEN (IF sz.val = 0 THEN [ok |-> TRUE, why |-> "", body |-> acc, used |-> Len(s), lenient |-> TRUE]
+                     ELSE PErr("eof_in_crlf"))
           ELSE IF ~(s[d + sz.val] = CR /\ s[d + sz.val + 1] = LF) THEN PErr("no_crlf")
           ELSE IF sz.val = 0
                THEN [ok |-> TRUE, why |-> "", body |-> acc, used |-> d + 1, lenient |-> (len \/ sz.lenient)]
@@ -127,6 +137,10 @@ Parse(s) == ParseFrom(s, 1, <<>>, FALSE)
 
 \* the stream is exactly one strictly valid chunked body
 ValidChunked(s) == LET P == Parse(s) IN P.ok /\ ~P.lenient /\ P.used = Len(s)
+
+\* RFC 7230 3.3.2 / 3.3.3: a message must not carry both "Transfer-Encoding: chunked" and Content-Length, and a
+\* message with a body needs one of them (te, cl: header present; len: length of the framed body)
+FramingHeadersOK(te, cl, len) == ~(te /\ cl) /\ (te \/ cl \/ len = 0)
 
 \* ------------------------------------------------------------------ content codings (abstract codec)
 \* A coded message is [enc: the coding the sender applied, label: the Content-Encoding it declared,
